@@ -75,6 +75,12 @@ def check(run):
             specs.append(norm(('task', 'f', [('set', [a, z, ('str', 'k')])], [])))
             specs.append(norm(('task', 'f', [('dict', [[a, ('int', 5)], [z, ('str', 'v')]])], [])))
             specs.append(norm(('task', 'g', [('fset', [('tuple', [z, a]), ('tuple', [a, a])])], [['a', ('dict', [[('tuple', [a, z]), ('none',)]])]])))
+    # long flat sequences of scalars with repeated equal strings / bytes (shared objects in one representation, separate ones in the other)
+    for i in range(6 if quick else 60):
+        ws = [''.join(rng.choice('abcdefgh') for _ in range(rng.randint(2, 6))) for _ in range(3)]
+        elems = [('str', rng.choice(ws)) for _ in range(rng.randint(9, 14))] + [('bytes', rng.choice(ws).encode().hex()) for _ in range(3)] + [('int', rng.randint(0, 3)) for _ in range(2)]
+        rng.shuffle(elems)
+        specs.append(norm(('task', 'f', [('list', elems), ('tuple', elems[:10])], [['a', ('list', elems[3:])]])))
     bad_corr = 0
     for i, s in enumerate(specs):
         text = json.dumps(s)
